@@ -1,1 +1,369 @@
-print("ok")
+#!/venv/bin/python
+"""B2 translator: regenerates lean/CheetahModel/Generated/*.lean from /repo's current source on every run.
+
+Everything about the code that is *structure rather than arithmetic* is extracted here as plain data:
+  Features.lean        per Element class: constructor parameters (inspect.signature on the live class),
+                       `defining_features` (live instance), keywords forwarded by `split` (AST)
+  Predicates.lean      normal form (ast.unparse) of is_skippable / is_active per class, tracking dispatch
+  DtypeSites.lean      every tensor-creation call in cheetah/ that allocates with the default dtype or casts a
+                       default-dtype temporary on entry (syntactic rules below), keyed by file::function::call
+  ConverterTables.lean the Elegant / Bmad element-type dispatch: type -> class, keyword -> expression
+The theorems over these tables (Properties/C12, C13, C14, C15, C16, C01, C08) are re-proved by `decide` in the same run.
+Files are only rewritten when their content changes (keeps `lake build` a no-op on an unchanged tree).
+A JSON copy is written to .work/generated.json for the Python side.
+"""
+from __future__ import annotations
+
+import ast
+import inspect
+import json
+import os
+import sys
+import warnings
+from pathlib import Path
+
+warnings.filterwarnings("ignore")
+VERIF = Path(__file__).resolve().parent.parent
+REPO = Path(os.environ.get("VERIF_REPO", "/repo"))
+GEN = VERIF / "lean" / "CheetahModel" / "Generated"
+sys.path.insert(0, str(REPO))
+
+
+def lean_str(s: str) -> str:
+    return '"' + s.replace("\\", "\\\\").replace('"', '\\"').replace("\n", "\\n") + '"'
+
+
+def lean_list(xs) -> str:
+    return "[" + ", ".join(lean_str(x) for x in xs) + "]"
+
+
+def write_if_changed(path: Path, text: str) -> bool:
+    if path.exists() and path.read_text() == text:
+        return False
+    path.parent.mkdir(parents=True, exist_ok=True)
+    path.write_text(text)
+    return True
+
+
+# ---------------------------------------------------------------------------------------------
+# 1. features / constructor parameters (live) + split forwarding (AST)
+# ---------------------------------------------------------------------------------------------
+def all_element_classes():
+    import cheetah
+    from cheetah.accelerator import Element
+
+    seen, out = set(), []
+
+    def walk(c):
+        for s in c.__subclasses__():
+            if s.__module__.startswith("cheetah.") and s not in seen:
+                seen.add(s)
+                out.append(s)
+                walk(s)
+    walk(Element)
+    return sorted(out, key=lambda c: c.__name__)
+
+
+def construct_default(cls):
+    import torch
+    name = cls.__name__
+    if name == "Segment":
+        return cls(elements=[])
+    if name == "CustomTransferMap":
+        return cls(predefined_transfer_map=torch.eye(7))
+    if name == "SpaceChargeKick":
+        return cls(effect_length=torch.tensor(1.0))
+    params = inspect.signature(cls.__init__).parameters
+    kw = {}
+    if "length" in params:
+        kw["length"] = torch.tensor(1.0)
+    return cls(**kw)
+
+
+def class_ast(cls):
+    src = Path(inspect.getsourcefile(cls)).read_text()
+    tree = ast.parse(src)
+    for node in ast.walk(tree):
+        if isinstance(node, ast.ClassDef) and node.name == cls.__name__:
+            return node
+    return None
+
+
+def method_ast(cnode, name):
+    if cnode is None:
+        return None
+    for n in cnode.body:
+        if isinstance(n, ast.FunctionDef) and n.name == name:
+            return n
+    return None
+
+
+def split_forwarding(cls):
+    """keywords (and positional slots) the class's `split` passes to the constructor of the pieces; None if unsplit"""
+    m = method_ast(class_ast(cls), "split")
+    if m is None:
+        return None
+    for node in ast.walk(m):
+        if isinstance(node, ast.Call) and isinstance(node.func, ast.Name) and node.func.id == cls.__name__:
+            params = [p for p in inspect.signature(cls.__init__).parameters if p != "self"]
+            fw = [params[i] for i in range(len(node.args))] + [k.arg for k in node.keywords if k.arg]
+            return fw
+    return []      # returns [self] (or the like): unsplittable
+
+
+def extract_features():
+    rows = []
+    for cls in all_element_classes():
+        sig = [p for p in inspect.signature(cls.__init__).parameters if p != "self"]
+        try:
+            feats = list(construct_default(cls).defining_features)
+            err = ""
+        except Exception as ex:  # pragma: no cover
+            feats, err = [], f"{type(ex).__name__}: {ex}"
+        fw = split_forwarding(cls)
+        rows.append({"name": cls.__name__, "ctor": sig, "features": feats, "split": fw, "error": err,
+                     "bases": [b.__name__ for b in cls.__mro__[1:] if b.__module__.startswith("cheetah.")]})
+    return rows
+
+
+# ---------------------------------------------------------------------------------------------
+# 2. predicates
+# ---------------------------------------------------------------------------------------------
+def norm_return(fn) -> str:
+    """normal form of a property body: the unparsed return expression(s), `;`-joined"""
+    if fn is None:
+        return "<inherited>"
+    rets = [ast.unparse(n.value) for n in ast.walk(fn) if isinstance(n, ast.Return) and n.value is not None]
+    deco = [ast.unparse(d) for d in fn.decorator_list]
+    form = "; ".join(rets)
+    if "property" not in deco:
+        form = "<not-a-property> " + form
+    return form
+
+
+def extract_predicates():
+    rows = []
+    for cls in all_element_classes():
+        cn = class_ast(cls)
+        track = method_ast(cn, "track")
+        dispatch = []
+        if track is not None:
+            for n in ast.walk(track):
+                if isinstance(n, ast.Compare) and isinstance(n.left, ast.Attribute) and n.left.attr == "tracking_method":
+                    dispatch.append(ast.unparse(n))
+        has_active = hasattr(construct_default(cls), "is_active") if cls.__name__ != "Element" else False
+        rows.append({"name": cls.__name__, "is_skippable": norm_return(method_ast(cn, "is_skippable")),
+                     "is_active": norm_return(method_ast(cn, "is_active")) if method_ast(cn, "is_active") else
+                     ("<attribute>" if has_active else "<absent>"),
+                     "overrides_track": track is not None, "dispatch": dispatch})
+    return rows
+
+
+# ---------------------------------------------------------------------------------------------
+# 3. dtype sites
+# ---------------------------------------------------------------------------------------------
+CREATORS = {"tensor", "zeros", "ones", "eye", "full", "empty", "rand", "randn", "linspace", "arange", "as_tensor",
+            "logspace", "tril", "triu"}
+LIKE = {"zeros_like", "ones_like", "full_like", "empty_like", "rand_like", "randn_like", "clone", "broadcast_to"}
+OUT_OF_SCOPE_FILES = ("converters/ocelot.py", "converters/astra.py", "utils/device.py")
+OUT_OF_SCOPE_FUNCS = ("plot", "plot_overview", "plot_twiss", "plot_reference_particle_traces", "plot_twiss_over_lattice",
+                      "__repr__")
+
+
+def classify_site(call: ast.Call, parents: list) -> str:
+    kws = {k.arg for k in call.keywords if k.arg}
+    has_star = any(k.arg is None for k in call.keywords)
+    if "dtype" in kws or has_star:
+        return "Requested"
+    # integer / boolean literal payload
+    if call.args and isinstance(call.args[0], ast.Constant) and isinstance(call.args[0].value, (bool, int)) \
+            and not isinstance(call.args[0].value, float) and call.func.attr == "tensor":
+        return "Integer"
+    # handed straight to something that casts: X(..., dtype=...) / torch.as_tensor(..., dtype) / .to(**factory_kwargs)
+    for p in reversed(parents):
+        if isinstance(p, ast.Call) and p is not call:
+            pk = {k.arg for k in p.keywords if k.arg}
+            if "dtype" in pk or any(k.arg is None for k in p.keywords):
+                return "CastOnEntry"
+        if isinstance(p, (ast.FunctionDef, ast.Lambda)):
+            break
+    return "Default"
+
+
+def extract_dtype_sites():
+    sites = []
+    for f in sorted((REPO / "cheetah").rglob("*.py")):
+        rel = str(f.relative_to(REPO / "cheetah"))
+        tree = ast.parse(f.read_text())
+
+        def visit(node, parents, func):
+            if isinstance(node, (ast.FunctionDef, ast.AsyncFunctionDef)):
+                func = node.name
+            if isinstance(node, ast.ClassDef):
+                func = node.name + "."
+            if isinstance(node, ast.Call) and isinstance(node.func, ast.Attribute) and \
+                    isinstance(node.func.value, ast.Name) and node.func.value.id == "torch" and node.func.attr in CREATORS:
+                if rel in OUT_OF_SCOPE_FILES or (func or "").split(".")[-1] in OUT_OF_SCOPE_FUNCS:
+                    kind = "OutOfScope"
+                else:
+                    kind = classify_site(node, parents)
+                sites.append({"file": rel, "func": func or "<module>", "call": ast.unparse(node)[:160], "kind": kind,
+                              "key": f"{rel}::{func or '<module>'}::{ast.unparse(node)[:120]}"})
+            for ch in ast.iter_child_nodes(node):
+                visit(ch, parents + [node], func)
+        visit(tree, [], None)
+    return sites
+
+
+# ---------------------------------------------------------------------------------------------
+# 4. converter dispatch tables
+# ---------------------------------------------------------------------------------------------
+def extract_converter(modname: str):
+    """walk the `if/elif parsed["element_type"] == ...` chain of convert_element"""
+    src = (REPO / "cheetah" / "converters" / f"{modname}.py").read_text()
+    tree = ast.parse(src)
+    rows = []
+    for fn in ast.walk(tree):
+        if isinstance(fn, ast.FunctionDef) and fn.name == "convert_element":
+            for node in ast.walk(fn):
+                if isinstance(node, ast.If):
+                    types = element_types_of_test(node.test)
+                    if not types:
+                        continue
+                    understood, built = [], []
+                    for sub in node.body:
+                        for n in ast.walk(sub):
+                            if isinstance(n, ast.Call) and isinstance(n.func, ast.Name) and \
+                                    n.func.id == "validate_understood_properties" and n.args:
+                                try:
+                                    understood = sorted(ast.literal_eval(n.args[0]))
+                                except Exception:
+                                    understood = [ast.unparse(n.args[0])]
+                            if isinstance(n, ast.Call) and isinstance(n.func, ast.Attribute) and \
+                                    isinstance(n.func.value, ast.Name) and n.func.value.id == "cheetah":
+                                built.append((n.func.attr, sorted(f"{k.arg}={ast.unparse(k.value)}" for k in n.keywords
+                                                                  if k.arg not in ("device", "dtype"))))
+                        # stop at nested elif chains: only direct body
+                    rows.append({"types": types, "understood": understood,
+                                 "builds": [{"cls": c, "args": a} for c, a in built]})
+    # de-duplicate (ast.walk visits nested Ifs of the elif chain once each)
+    seen, out = set(), []
+    for r in rows:
+        key = json.dumps(r, sort_keys=True)
+        if key not in seen:
+            seen.add(key)
+            out.append(r)
+    return out
+
+
+def element_types_of_test(test) -> list:
+    """parsed['element_type'] == 'x'  /  in [..]"""
+    def is_et(n):
+        return isinstance(n, ast.Subscript) and isinstance(n.slice, ast.Constant) and n.slice.value == "element_type"
+    if isinstance(test, ast.Compare) and is_et(test.left) and len(test.comparators) == 1:
+        c = test.comparators[0]
+        try:
+            v = ast.literal_eval(c)
+        except Exception:
+            return []
+        return sorted(v) if isinstance(v, (list, tuple, set)) else [v]
+    return []
+
+
+# ---------------------------------------------------------------------------------------------
+def main() -> int:
+    feats = extract_features()
+    preds = extract_predicates()
+    sites = extract_dtype_sites()
+    conv = {m: extract_converter(m) for m in ("elegant", "bmad")}
+
+    # ---- Features.lean
+    L = ["/-! GENERATED by tools/extract.py from /repo — do not edit -/", "namespace Gen", "",
+         "structure ClassInfo where", "  name : String", "  ctor : List String", "  features : List String",
+         "  splitForwards : Option (List String)", "  bases : List String", "deriving Repr, DecidableEq", "",
+         "def classes : List ClassInfo := ["]
+    rows = []
+    for r in feats:
+        sp = "none" if r["split"] is None else f"some {lean_list(r['split'])}"
+        rows.append(f"  ⟨{lean_str(r['name'])}, {lean_list(r['ctor'])}, {lean_list(r['features'])}, {sp}, {lean_list(r['bases'])}⟩")
+    L.append(",\n".join(rows))
+    L += ["]", "", "end Gen", ""]
+    ch1 = write_if_changed(GEN / "Features.lean", "\n".join(L))
+
+    # ---- Predicates.lean
+    L = ["/-! GENERATED by tools/extract.py from /repo — do not edit -/", "namespace Gen", "",
+         "structure PredInfo where", "  name : String", "  isSkippable : String", "  isActive : String",
+         "  overridesTrack : Bool", "  dispatch : List String", "deriving Repr, DecidableEq", "",
+         "def predicates : List PredInfo := ["]
+    L.append(",\n".join(f"  ⟨{lean_str(r['name'])}, {lean_str(r['is_skippable'])}, {lean_str(r['is_active'])}, "
+                        f"{'true' if r['overrides_track'] else 'false'}, {lean_list(r['dispatch'])}⟩" for r in preds))
+    L += ["]", "", "end Gen", ""]
+    ch2 = write_if_changed(GEN / "Predicates.lean", "\n".join(L))
+
+    # ---- DtypeSites.lean (only the suspicious ones are listed individually; counts for the rest)
+    susp = sorted({s["key"] for s in sites if s["kind"] in ("Default", "CastOnEntry")})
+    counts = {}
+    for s in sites:
+        counts[s["kind"]] = counts.get(s["kind"], 0) + 1
+    L = ["/-! GENERATED by tools/extract.py from /repo — do not edit -/", "namespace Gen", "",
+         "/-- tensor-creation sites that allocate with the default dtype (`Default`) or cast a default-dtype temporary",
+         "on entry (`CastOnEntry`), keyed `file::function::call` -/",
+         "def suspiciousDtypeSites : List String := ["]
+    L.append(",\n".join("  " + lean_str(k) for k in susp))
+    L += ["]", "", f"def dtypeSiteCounts : List (String × Nat) := [" +
+          ", ".join(f"({lean_str(k)}, {v})" for k, v in sorted(counts.items())) + "]", "", "end Gen", ""]
+    ch3 = write_if_changed(GEN / "DtypeSites.lean", "\n".join(L))
+
+    # ---- ConverterTables.lean
+    L = ["/-! GENERATED by tools/extract.py from /repo — do not edit -/", "namespace Gen", "",
+         "structure ConvRow where", "  dialect : String", "  types : List String", "  understood : List String",
+         "  builds : List (String × List String)", "deriving Repr, DecidableEq", "", "def converterTable : List ConvRow := ["]
+    rows = []
+    for d, rs in conv.items():
+        for r in rs:
+            b = "[" + ", ".join(f"({lean_str(x['cls'])}, {lean_list(x['args'])})" for x in r["builds"]) + "]"
+            rows.append(f"  ⟨{lean_str(d)}, {lean_list(r['types'])}, {lean_list(r['understood'])}, {b}⟩")
+    L.append(",\n".join(rows))
+    L += ["]", "", "end Gen", ""]
+    ch4 = write_if_changed(GEN / "ConverterTables.lean", "\n".join(L))
+
+    # ---- Pinned.lean: the reviewed baseline tables (tools/spec/pinned.json, committed; written only with --pin)
+    spec = VERIF / "tools" / "spec" / "pinned.json"
+    cur = {"predicates": preds, "converters": conv, "suspicious_dtype_sites": susp,
+           "split": {r["name"]: r["split"] for r in feats}}
+    if "--pin" in sys.argv:
+        spec.parent.mkdir(parents=True, exist_ok=True)
+        spec.write_text(json.dumps(cur, indent=1))
+    if not spec.exists():
+        print("extract: tools/spec/pinned.json missing (run tools/extract.py --pin on a reviewed tree)")
+        return 1
+    pin = json.loads(spec.read_text())
+    L = ["import CheetahModel.Generated.Predicates", "import CheetahModel.Generated.ConverterTables",
+         "/-! GENERATED by tools/extract.py from tools/spec/pinned.json (the reviewed baseline tables) — do not edit -/",
+         "namespace Gen", "",
+         "def pinnedPredicates : List PredInfo := ["]
+    L.append(",\n".join(f"  ⟨{lean_str(r['name'])}, {lean_str(r['is_skippable'])}, {lean_str(r['is_active'])}, "
+                        f"{'true' if r['overrides_track'] else 'false'}, {lean_list(r['dispatch'])}⟩" for r in pin["predicates"]))
+    L += ["]", "", "def pinnedConverterTable : List ConvRow := ["]
+    rows = []
+    for d, rs in pin["converters"].items():
+        for r in rs:
+            b = "[" + ", ".join(f"({lean_str(x['cls'])}, {lean_list(x['args'])})" for x in r["builds"]) + "]"
+            rows.append(f"  ⟨{lean_str(d)}, {lean_list(r['types'])}, {lean_list(r['understood'])}, {b}⟩")
+    L.append(",\n".join(rows))
+    L += ["]", "", "def pinnedDtypeSites : List String := ["]
+    L.append(",\n".join("  " + lean_str(k) for k in pin["suspicious_dtype_sites"]))
+    L += ["]", "", "end Gen", ""]
+    ch5 = write_if_changed(GEN / "Pinned.lean", "\n".join(L))
+
+    (VERIF / ".work").mkdir(exist_ok=True)
+    (VERIF / ".work" / "generated.json").write_text(json.dumps(
+        {"features": feats, "predicates": preds, "dtype_sites": sites, "converters": conv}, indent=1))
+    print(f"extract: {len(feats)} classes, {len(sites)} tensor-creation sites ({counts}), "
+          f"{sum(len(v) for v in conv.values())} converter rows; changed: "
+          f"{[n for n, c in zip(['Features', 'Predicates', 'DtypeSites', 'ConverterTables', 'Pinned'], [ch1, ch2, ch3, ch4, ch5]) if c]}")
+    return 0
+
+
+if __name__ == "__main__":
+    sys.exit(main())
